@@ -52,6 +52,11 @@ impl<T, I: MRBIterator<Item = T>> Detached<I> {
     fn inner(&self) -> &I {
         &self.inner
     }
+    /// Verification hook: see [`MRBIterator::verif_cached_avail`].
+    #[cfg(feature = "verif-hooks")]
+    pub fn verif_cached_avail(&self) -> usize {
+        self.inner.verif_cached_avail()
+    }
     fn inner_mut(&mut self) -> &mut I {
         &mut self.inner
     }
